@@ -1085,12 +1085,19 @@ impl ReCompiler {
         op1: &Operation,
         case_blind: bool,
         reluctant: bool,
+        multi_line: bool,
     ) -> bool {
         if matches!(op1, Operation::EndProgram(_)) {
             return !reluctant;
         }
-        if matches!(op1, Operation::Bol(_)) || matches!(op1, Operation::Eol(_)) {
-            return true;
+        if matches!(op1, Operation::Eol(_)) {
+            // in multi-line mode the end of a line can follow fewer
+            // repetitions than the maximum
+            return !multi_line;
+        }
+        if matches!(op1, Operation::Bol(_)) {
+            // the start of a line can only follow fewer repetitions
+            return false;
         }
         if let Some(repeat_operation) = op1.repeat_operation() {
             if repeat_operation.min() == 0 {
